@@ -563,6 +563,9 @@ func c19CloneTable(c *ctx) (string, error) {
 	if err := x.loadStruct("retryOption", "", "retryOption", nil); err != nil {
 		return "", err
 	}
+	if err := x.loadStruct("Dumper", "internal/dump", "Dumper", nil); err != nil {
+		return "", err
+	}
 	if err := x.loadStruct("Options", "internal/transport", "Options", map[string]string{"tls.Config": "TLSConfig"}); err != nil {
 		return "", err
 	}
@@ -634,6 +637,28 @@ func c19CloneTable(c *ctx) (string, error) {
 		return "", fmt.Errorf("only %d settings methods found (expected > 100): the setter scan no longer understands the source", nSetters)
 	}
 
+	// ---- the request-level settings API: every exported method of *Request whose only result is *Request
+	rms, err := x.methods("", map[string]string{"Request": "Request"})
+	if err != nil {
+		return "", err
+	}
+	var reqSetters []string
+	for _, m := range rms {
+		if !ast.IsExported(m.name) || m.decl.Type.Results == nil || len(m.decl.Type.Results.List) != 1 || len(m.decl.Type.Results.List[0].Names) > 1 {
+			continue
+		}
+		if _, isPtr := m.decl.Recv.List[0].Type.(*ast.StarExpr); !isPtr {
+			continue
+		}
+		if st, ok := m.decl.Type.Results.List[0].Type.(*ast.StarExpr); ok && typeName(st.X) == "Request" {
+			reqSetters = append(reqSetters, m.name)
+		}
+	}
+	sort.Strings(reqSetters)
+	if len(reqSetters) < 60 {
+		return "", fmt.Errorf("only %d request-level setters found (expected > 60): the scan no longer understands request.go", len(reqSetters))
+	}
+
 	// ---- SetTLSFingerprint: does the handshake closure capture the receiver?
 	fpm, ok := byKey["Client.SetTLSFingerprint"]
 	if !ok {
@@ -654,7 +679,7 @@ func c19CloneTable(c *ctx) (string, error) {
 	facts["fingerprintCapturesClient"] = captures
 
 	// ---- sanity: every field must have been classified
-	order := []string{"Client", "Transport", "Options", "H2Transport", "retryOption", "DumpOptions", "TLSConfig", "HTTPClient"}
+	order := []string{"Client", "Transport", "Options", "H2Transport", "retryOption", "DumpOptions", "TLSConfig", "HTTPClient", "Dumper"}
 	for _, k := range order {
 		for _, f := range x.structs[k].fields {
 			if f.how == "" {
@@ -691,6 +716,12 @@ func c19CloneTable(c *ctx) (string, error) {
 		fmt.Fprintf(&b, "def %s : Bool := %v\n", k, facts[k])
 	}
 	fmt.Fprintf(&b, "def settingsMethodsScanned : Nat := %d\n\n", nSetters)
+	b.WriteString("/-- every exported method of *Request whose only result is *Request -/\n")
+	qs := make([]string, len(reqSetters))
+	for i, n := range reqSetters {
+		qs[i] = fmt.Sprintf("%q", n)
+	}
+	b.WriteString("def requestSetters : List String := [\n  " + strings.Join(qs, ", ") + "]\n\n")
 	b.WriteString("/-! Open findings of C19 listed in known-findings.txt (each excuses exactly the rows/facts of its class). -/\n")
 	for _, cls := range []string{"wrapper-slice-alias", "dump-options-unlinked", "h2c-allowhttp-dropped", "tls-config-shared", "fingerprint-captures-original"} {
 		fmt.Fprintf(&b, "def open_%s : Bool := %v\n", strings.ReplaceAll(cls, "-", "_"), open[cls])
